@@ -159,7 +159,8 @@ def main(argv):
         print('INFRA: lake build failed (the Lean sources live in /verif and do not depend on /repo)')
         return 2
     hits = lean.scan_sources()
-    ok_audit, axioms, audit_log = lean.audit(pid)
+    from . import srctie
+    ok_audit, axioms, audit_log = lean.audit(pid, srctie.audit_names(pid))
     theorems = lean.theorems_of(pid)
     if hits or not ok_audit:
         print('INFRA: proof audit failed for %s: forbidden=%s axioms=%s' % (pid, hits, axioms))
@@ -180,6 +181,15 @@ def main(argv):
     from . import env  # imports the fxpmath under test
     known = [k for k in load_known() if k['property'] == pid]
     known_open = [k for k in known if k['status'] == 'known']
+
+    # ---------------------------------------------------------------- 1b: source tie (DESIGN §14)
+    # the decision logic of functions.py is translated to Lean again from the tree under test; the tie theorems are
+    # re-checked against it.  broken = the generated rule is no longer the one the property theorems speak about.
+    try:
+        tie = srctie.check()
+    except Exception as e:      # the translator itself failed: an infrastructure problem, never a verdict
+        print('INFRA: source tie could not be evaluated: %r' % (e,)); return 2
+    tie_mine, tie_broken, tie_missing, tie_transfer = srctie.for_property(pid, tie)
 
     changed = []
     if replay is not None:
@@ -203,7 +213,8 @@ def main(argv):
         changed = source_changed()
         if changed and tier == 'quick':
             # the source differs from the tree the model was validated against: triple the quick budget
-            for extra in (1000, 2000):
+            # (six-fold when a source-tie theorem of this property is broken or could not be established)
+            for extra in ((1000, 2000, 3000, 4000, 5000) if (tie_broken or tie_missing) else (1000, 2000)):
                 rng_x = random.Random('%s/%d/%s' % (pid, seed + extra, tier))
                 arg_lines += list(mod.generate(tier, rng_x))
 
@@ -289,6 +300,20 @@ def main(argv):
         for e in entries[:5]:
             print(('  failing input: %s | observed %s | model %s' % (e['line'], e['observed'], e['model']))[:700])
         rc = 1
+    if tie_broken and not new_fails and replay is None:
+        # a proof obligation about the regenerated rules no longer checks and no failing input was found on the implementation
+        entries = [{'line': 'TIE ' + t, 'observed': '; '.join(tie['diffs'].get(t, [])[:5]) or 'no differing formats found on the grid',
+                    'model': 'theorem Fxp.Gen.Tie.%s (lean/FxpVerif/Gen/Tie.lean) about %s generated from fxpmath/functions.py'
+                             % (t, srctie.THEOREMS[t][0]), 'verdict': 'broken'} for t in tie_broken]
+        path = write_replay(pid, seed, tier, 'source-tie', entries,
+                            'proof obligation(s) %s no longer check against the definitions regenerated from the current '
+                            'fxpmath/functions.py (python -m harness.srctie shows the Lean errors): the rule in the source is no longer '
+                            'the rule the theorems of %s are about. The implementation was searched with the escalated budget '
+                            '(%d lines) and no input violating the property itself was found.'
+                            % (', '.join(tie_broken), pid, len(full)))
+        print('VIOLATION property=%s replay=%s no-failing-input-found' % (pid, os.path.relpath(path, VERIF)))
+        violation_lines.append(path)
+        rc = 1
     elif disagree and not fails:
         entries = [{'line': v[1].split(' | ')[0], 'observed': v[1].split(' | ')[1] if ' | ' in v[1] else '',
                     'model': v[2], 'verdict': v[0]} for v in disagree[:20]]
@@ -313,8 +338,9 @@ def main(argv):
         if mod.nontrivial(v[1], v[2]):
             nontriv.add(v[1].split(' | ')[0])
     corr_obl = sorted(set(v[1].split()[0] for v in judged))
-    n_obl = len(theorems) + len(corr_obl) + 2
-    discharged = n_obl - (1 if (disagree and not fails) or new_fails else 0)
+    tie_obl = [t for t in tie_mine if t not in tie_missing]          # rules the translator could regenerate
+    n_obl = len(theorems) + len(corr_obl) + 2 + len(tie_obl) + len(tie_transfer)
+    discharged = n_obl - (1 if (disagree and not fails) or new_fails else 0) - len(tie_broken)
     samples = [{'line': v[1], 'driver': v[0] + ' ' + v[2]} for v in judged[:3] + judged[len(judged) // 2:len(judged) // 2 + 3] + judged[-2:]]
     ev = {
         'property_id': pid, 'tier': tier, 'seed': seed, 'level': 'proof',
@@ -324,6 +350,17 @@ def main(argv):
                            './check %s %s (correspondence of the model with /repo)' % (pid, pid, tier),
             'trusted_base': mod.TRUSTED_BASE,
             'theorems': {t: axioms.get(t, []) for t in theorems},
+            'source_tie': {
+                'what': 'decision rules of fxpmath/functions.py translated to Lean on this run (harness/srcgen.py) and the tie theorems of '
+                        'lean/FxpVerif/Gen/Tie.lean checked against the translation',
+                'generated_sha256': tie['generated_sha256'],
+                'identical_to_committed_translation': tie['identical_to_committed'],
+                'theorems': {t: tie['status'].get(t, 'n/a') for t in tie_mine},
+                'restated_property_theorems': tie_transfer,
+                'axioms': {k: v for k, v in axioms.items() if k.startswith('Gen.Tie.')},
+                'not_established': tie_missing,
+                'differing_formats': {t: tie['diffs'].get(t, []) for t in tie_broken},
+            },
             'correspondence_ops': corr_obl,
             'leanchecker': leanchecker,
             'evaluations': int(stats.get('elements', len(judged))),
